@@ -133,8 +133,10 @@ def case_lines(c):
     ts = "inf" if thr is None else str(thr)
     H, O = [], []
     # no threshold is passed either as +infinity (Python binding) or as the largest finite value (command-line tool)
-    head = "%d %d %s %d %d" % (n, dim, "max" if (thr is None and c.get("thrmax")) else ts, mod, sq)
     ks = " ".join(map(str, keys))
+    # one case in four is run in another unit of length (2^-40 or 2^30; exact): a function of the data
+    u = {1: 1, 2: 2}.get(zlib.crc32(ks.encode()) % 8, 0)
+    head = "%d %d %s %d %d" % (n, dim, "max" if (thr is None and c.get("thrmax")) else ts, mod, sq + 2 * u)
     dense = c["kind"] in ("dense", "points")
     if dense:
         for form in c.get("forms", ["lower", "lowerdirect", "upper", "full", "fullraw", "upconv", "sparsector", "sparse"]):
@@ -159,7 +161,7 @@ def case_lines(c):
             # the same graph as a dense matrix with a threshold: absent edges get a key above the threshold
             big = max([k for k in keys if k >= 0] + [0]) + 7
             t2 = thr if thr is not None else big - 7
-            H.append(("lower+thr", "R lower %d %d %d %d %d %s" % (n, dim, t2, mod, sq, " ".join(str(k if k >= 0 else big) for k in keys))))
+            H.append(("lower+thr", "R lower %d %d %d %d %d %s" % (n, dim, t2, mod, sq + 2 * u, " ".join(str(k if k >= 0 else big) for k in keys))))
     if c.get("second", True) and mod <= 251:
         H.append(("second", "S %d %d %s %d %d %s" % (n, dim, ts, mod, sq, ks)))
     if c.get("proved", True):
